@@ -72,10 +72,10 @@ def regexpp(regex: Any) -> str:
         # NOTE: not every text can be written as a raw string (backslashes
         #   before both kinds of quotes): repr() always reads back
         return repr(pattern_text)
-    except PatternError as e:
-        raise RuntimeError(
-            f"regexp() generated an invalid regex pattern: {output}\n{e}",
-        ) from e
+    except PatternError:
+        # NOTE: a line break ends a comment of a verbose pattern; written as
+        #   an escape the comment swallows what follows: '(?x)( # c\n a)'
+        return repr(pattern_text)
     except Exception as e:
         raise RuntimeError(f"Unexpected error evaluating output: {output}\n{e}") from e
 
